@@ -87,11 +87,10 @@ def r_absent(ctx, v):
                 d = strip(v.vp.operand(f, t["discr"]))
                 if d[0] == "discr" and any(x[0] == "call" and x[1].split("::")[-1] in (
                         "get_full_mut", "swap_remove_full", "change_priority", "change_priority_by", "remove", "branch", "get_full_mut2", "get_mut") for x in walk(d)):
-                    for val, tb in t["targets"]:
-                        if val == 1 and len(f.cfg.pred[tb]) == 1:
+                    from .core import edge_presence
+                    for tb in f.cfg.succ[bi]:
+                        if edge_presence(d, t, tb) == "present" and len(f.cfg.pred[tb]) == 1:
                             some_dom |= {b for b in f.cfg.reach if f.cfg.dominates(tb, b)}
-                    if all(val == 0 for val, _ in t["targets"]) and len(f.cfg.pred[t["otherwise"]]) == 1:
-                        some_dom |= {b for b in f.cfg.reach if f.cfg.dominates(t["otherwise"], b)}
             for ev in v.fx.events(f):
                 eff = ev["kind"] == "tw" or (ev["kind"] == "mw" and ev.get("mclass") in ("grow", "clear", "retain", "reorder"))
                 if ev["kind"] == "call" and ev["callee"].split("::")[-1] in ("up_heapify", "heapify", "heap_build", "bubble_up", "push"):
